@@ -73,6 +73,10 @@ T = {
  'C14': dict(design='4/C14', technique='property-based testing of schematic annotations: strict text parser with exact decimal arithmetic against quantities of an independently constructed solution object; differential check declarative vs programmatic path',
              text='Generated well-posed drawings x every annotatable element / labelled node x both directions x solution kind x display options; each label text is parsed and must denote, to the displayed precision, +-get_*(id) of a solution object the check builds from the documented meaning of the kind (DC, RMS phasor at 0 / at w, Re{X_peak e^{jwt}}); the declarative solution section must write exactly the labels of the corresponding programmatic calls.',
              note='Uses the library\'s own solver on the translated circuit as reference (validated by C13/C01/C02) so that only the adapter (w, RMS/peak, sign, lookup, formatting) is judged; the time-function power annotation is excluded; open finding F20-C14 (suppressed complex part) is reported as KNOWN-FINDING.'),
+
+ 'C20': dict(design='4/C20', technique='model-based testing of generated call histories: every step compared with the same operation in a pristine forked process (isolation server), repeated, and checked against deep snapshots of all shared objects and mutable defaults',
+             text='Generated histories of 10-30 public operations (solving, port queries, all transformers with one shared exemption list, circuit transformation, DC/complex/time/frequency solutions, state-space models with shared value dictionaries, transient runs, loaders, complex-number conversion, serialisation) over a pool of descriptions whose Python objects persist across the history; each result must equal the isolated result, repeat identically, and leave every pooled object, shared argument and default argument untouched.',
+             note='Histories are generated as plain step lists (not a RuleBasedStateMachine) so that they replay and shrink as data in the common runner; isolation is process isolation by fork from a server that never executed a library operation; floats compared to 1e-12.'),
 }
 
 DEFAULT_LEVEL = 'exploration'
